@@ -206,6 +206,23 @@ def run(ctx):
             report("Verify differs from the proved model (%s): impl=%s model=%s" % (c["desc"], a.split(" trace=")[0], b.split(" trace=")[0]), replay, nf=True)
         if wrong and ca["unusable"] == 0 and len(ctx.samples) < 5:
             ctx.sample({"pattern": c["desc"], "verify": a.split(" trace=")[0]})
+    # two sets with ONE recovery-set id (same names, lengths and first 16 KiB, different content behind), verified one after the
+    # other IN ONE PROCESS: what was learned about the first must not be applied to the second
+    tw_head = L.gen_content(rng, "random", 16384)
+    twA = P.PSet({"big.bin": tw_head + L.gen_content(rng, "random", 4096 + 7), "small.txt": b"hello world"}, 4096, 2, g=1, tag="same-id-A")
+    twB = P.PSet({"big.bin": tw_head + L.gen_content(rng, "random", 4096 + 7), "small.txt": b"hello world"}, 4096, 2, g=1, tag="same-id-B")
+    P.create_all(ctx, vh, model, [twA, twB])
+    if twA.created is not None and twB.created is not None:
+        seq_lines = [L.line_verify("p2", "mem", twA.index, 1, twA.created), L.line_verify("p2", "mem", twB.index, 1, twB.created),
+                     L.line_verify("p2", "mem", twA.index, 1, twA.created)]
+        seq_res = ctx.run_lines(vh, seq_lines, shards=1)
+        for line_, res_ in zip(seq_lines, seq_res):
+            cs_ = P.counts_of(L.parse_result(res_))
+            ctx.count("same-set-id|" + L.hx(L.md5(line_.encode())), True)
+            dist["pattern"]["same-set-id-sequence"] = dist["pattern"].get("same-set-id-sequence", 0) + 1
+            if cs_ is None or cs_["needed"] != 0 or cs_["unusable"] != 0:
+                report("an intact set does not verify clean when a set with the same recovery-set id was verified before it in the same process: %s" % res_.split(" trace=")[0],
+                       {"lines": seq_lines, "impl": res_[:800], "class": {"pattern": "same-set-id-sequence"}})
     # a recovery file that is a SYMBOLIC LINK to an intact volume kept elsewhere in the directory (real directory): it is a
     # file like any other - same counts as with the plain file
     sl_lines, sl_meta = [], []
